@@ -477,7 +477,7 @@ impl Property for C08 {
         Isolation::Thread
     }
     fn cases(&self, tier: Tier) -> u32 {
-        tier.pick(6_000, 300_000)
+        tier.pick(40_000, 1_500_000)
     }
     fn strategy(&self, _tier: Tier) -> BoxedStrategy<Case> {
         (c08_node(), proptest::collection::vec((gfilter_strategy(), any::<bool>()), 0..3)).prop_map(|(tree, globals)| Case { tree, globals, no_steer: false }).boxed()
